@@ -407,20 +407,27 @@ func (e *Executor) startExecution(ctx context.Context, t *ast.Task, execute func
 	e.executionHashesMutex.Lock()
 
 	if otherExecutionCtx, ok := e.executionHashes[h]; ok {
-		e.executionHashesMutex.Unlock()
-		e.Logger.VerboseErrf(logger.Magenta, "task: skipping execution of task: %s\n", h)
-
-		// If that execution is one of the executions this call was made from,
-		// it is waiting for this call: a cycle of task references, which the
-		// call counter cannot see because nothing recurses any further
-		for c, _ := ctx.Value(executionChainKey{}).(*executionChain); c != nil; c = c.parent {
-			if c.hash == h {
-				return &errors.TaskCalledTooManyTimesError{
-					TaskName:        t.Task,
-					MaximumTaskCall: MaximumTaskCall,
-				}
+		// If that execution is one of the executions this call was made from, or
+		// waits (directly or through others) for one of them, it cannot finish
+		// before this call does: a cycle of task references, which the call
+		// counter cannot see because nothing recurses any further
+		chain, _ := ctx.Value(executionChainKey{}).(*executionChain)
+		if e.waitsForChain(h, chain, map[string]bool{}) {
+			e.executionHashesMutex.Unlock()
+			return &errors.TaskCalledTooManyTimesError{
+				TaskName:        t.Task,
+				MaximumTaskCall: MaximumTaskCall,
 			}
 		}
+		// From now on every execution of the chain waits for that one
+		e.recordWaits(chain, h, +1)
+		e.executionHashesMutex.Unlock()
+		defer func() {
+			e.executionHashesMutex.Lock()
+			e.recordWaits(chain, h, -1)
+			e.executionHashesMutex.Unlock()
+		}()
+		e.Logger.VerboseErrf(logger.Magenta, "task: skipping execution of task: %s\n", h)
 
 		// Release our execution slot to avoid blocking other tasks while we wait
 		reacquire := e.releaseConcurrencyLimit()
@@ -455,6 +462,41 @@ func (e *Executor) startExecution(ctx context.Context, t *ast.Task, execute func
 		finish(nil)
 	}
 	return err
+}
+
+// waitsForChain reports whether the execution h is one of the chain or waits,
+// directly or through other executions, for one of them. The caller holds
+// executionHashesMutex.
+func (e *Executor) waitsForChain(h string, chain *executionChain, seen map[string]bool) bool {
+	for c := chain; c != nil; c = c.parent {
+		if c.hash == h {
+			return true
+		}
+	}
+	if seen[h] {
+		return false
+	}
+	seen[h] = true
+	for other, n := range e.executionWaits[h] {
+		if n > 0 && e.waitsForChain(other, chain, seen) {
+			return true
+		}
+	}
+	return false
+}
+
+// recordWaits adds (or removes) the fact that the executions of the chain wait
+// for the execution h. The caller holds executionHashesMutex.
+func (e *Executor) recordWaits(chain *executionChain, h string, delta int) {
+	for c := chain; c != nil; c = c.parent {
+		if e.executionWaits == nil {
+			e.executionWaits = map[string]map[string]int{}
+		}
+		if e.executionWaits[c.hash] == nil {
+			e.executionWaits[c.hash] = map[string]int{}
+		}
+		e.executionWaits[c.hash][h] += delta
+	}
 }
 
 // executionChain lists, innermost first, the deduplicated executions a call is
